@@ -195,6 +195,24 @@ def run_histories(report, rng):
             execute(world, job2, other, 'another job after %s' % profile)
         world.close()
 
+    # the same job object (one Machine) after a run that failed or was stopped half-way through a statement
+    broken = ['assign z 0 printf "{} {}" 7 {1 / z}', 'assign z 0 printf "{} {} {}" 1 2 {5 % z} print 3',
+              'define f with a begin return {1 / a} end printf "{} {}" 4 [f 0]', 'repeat with i from 1 to 3 begin printf "{} {}" i {1 / (2 - i)} end',
+              'hue 7 print hue assign z 0 saturation {3 / z}']
+    for i in range(len(broken) * (3 if report.tier == 'thorough' else 1)):
+        rec = gen_lang.make_record(0, lang_props.hash_seed(report.seed, 'c17broken', i), 'print', 14)
+        world = runner.World(rec['pop'])
+        job = ScriptJob()
+        job.load_string(broken[i % len(broken)])
+        if job.program is None:
+            problems.append((rec, 'compile', 'valid script rejected: ' + job.compile_errors.strip()))
+        else:
+            runner.run_script(world, '', job=job)
+            job.load_string(rec['text'])
+            if job.program is not None:
+                execute(world, job, rec, 'same job, new script after a failed run')
+        world.close()
+
     # validate every execution against Lang from the initial state
     batch = [{'id': r['id'], 'prog': r['prog'], 'pop': r['pop'] or [], 'rank': r['rank'], 'strictf': False,
               'budget': 6000, 'rawturn': 65536, 'ev': r['_events']} for r in records]
